@@ -884,3 +884,67 @@ pub fn free_port() -> u16 {
     let l = std::net::TcpListener::bind(("127.0.0.1", 0)).expect("bind port 0");
     l.local_addr().unwrap().port()
 }
+
+// ------------------------------------------------------------------------------------------------
+/// Buffered result of one attempt at a case. Tool checks run real processes on a shared machine: a
+/// failure of the *environment* kind (process could not be started or did not answer within the
+/// wall-clock limit) is re-run in isolation before it is reported, and is reported only if it
+/// reproduces on every attempt (DESIGN section 1, "Isolation").
+#[derive(Default)]
+pub struct Attempt {
+    pub outcomes: Vec<(String, Option<serde_json::Value>)>,
+    pub fails: Vec<(serde_json::Value, serde_json::Value)>,
+    pub nontrivial: bool,
+    /// set by the case when its failure is of the environment kind
+    pub transient: bool,
+}
+impl Attempt {
+    pub fn outcome(&mut self, name: &str) {
+        self.outcomes.push((name.to_string(), None));
+    }
+    pub fn outcome_with(&mut self, name: &str, sample: impl FnOnce() -> serde_json::Value) {
+        self.outcomes.push((name.to_string(), Some(sample())));
+    }
+    pub fn fail(&mut self, class: serde_json::Value, detail: serde_json::Value) {
+        self.fails.push((class, detail));
+    }
+    pub fn fail_transient(&mut self, class: serde_json::Value, detail: serde_json::Value) {
+        self.transient = true;
+        self.fails.push((class, detail));
+    }
+}
+
+/// Run `f` up to `tries` times while it reports a transient failure; record the last attempt.
+pub fn run_with_retries(l: &mut vx_kit::Local, case_id: &str, tries: usize, mut f: impl FnMut(&mut Attempt)) {
+    l.eval();
+    let mut last = Attempt::default();
+    let mut retried = 0;
+    for n in 0..tries.max(1) {
+        let mut a = Attempt::default();
+        f(&mut a);
+        let again = a.transient && !a.fails.is_empty();
+        last = a;
+        if !again {
+            break;
+        }
+        if n + 1 < tries {
+            retried += 1;
+            std::thread::sleep(std::time::Duration::from_millis(200 * (n as u64 + 1)));
+        }
+    }
+    if retried > 0 && last.fails.is_empty() {
+        l.outcome("environment-failure-not-reproduced-on-rerun");
+    }
+    if last.nontrivial {
+        l.nontrivial(&case_id);
+    }
+    for (name, sample) in last.outcomes {
+        match sample {
+            Some(s) => l.outcome_with(&name, || s),
+            None => l.outcome(&name),
+        }
+    }
+    for (class, detail) in last.fails {
+        l.fail(case_id, class, detail);
+    }
+}
